@@ -76,7 +76,7 @@ pub mod q {
         let (n, a, b, x): (u32, u32, u32, u32) = (kani::any(), kani::any(), kani::any(), kani::any());
         unsafe { RET = (n, a, b); }
         let imp: Box<dyn v1::Svc> = Box::new(Impl1);
-        let conn: AbiConnection<dyn v0::Svc> = connect::<dyn v0::Svc, dyn v1::Svc>(imp, 0, vec![(Some(0), 0), (Some(1), 0)]);
+        let conn: AbiConnection<dyn v0::Svc> = connect::<dyn v0::Svc, dyn v1::Svc>(imp, 0, vec![m(Some(0), 0), m(Some(1), 0)]);
         let r = v0::Svc::get(&conn, x);
         assert!(unsafe { SEEN_X } == x, "C10: argument value seen by the implementation differs");
         assert!(r.a == a && r.b == b, "C10: retained fields of the return value differ at the older caller (return value not transmitted in the negotiated version's format)");
@@ -88,7 +88,7 @@ pub mod q {
         let (a, b, x): (u32, u32, u32) = (kani::any(), kani::any(), kani::any());
         unsafe { RET = (0, a, b); }
         let imp: Box<dyn v0::Svc> = Box::new(Impl0);
-        let conn: AbiConnection<dyn v1::Svc> = connect::<dyn v1::Svc, dyn v0::Svc>(imp, 0, vec![(Some(0), 0), (Some(1), 0)]);
+        let conn: AbiConnection<dyn v1::Svc> = connect::<dyn v1::Svc, dyn v0::Svc>(imp, 0, vec![m(Some(0), 0), m(Some(1), 0)]);
         let r = v1::Svc::get(&conn, x);
         assert!(unsafe { SEEN_X } == x, "C10: argument value seen by the implementation differs");
         assert!(r.a == a && r.b == b, "C10: retained fields of the return value differ at the newer caller");
@@ -99,7 +99,7 @@ pub mod q {
     kproof!(arg_old_caller_new_impl, 6, {
         let (p, q): (u16, u32) = (kani::any(), kani::any());
         let imp: Box<dyn v1::Svc> = Box::new(Impl1);
-        let conn: AbiConnection<dyn v0::Svc> = connect::<dyn v0::Svc, dyn v1::Svc>(imp, 0, vec![(Some(0), 0), (Some(1), 0)]);
+        let conn: AbiConnection<dyn v0::Svc> = connect::<dyn v0::Svc, dyn v1::Svc>(imp, 0, vec![m(Some(0), 0), m(Some(1), 0)]);
         let r = v0::Svc::put(&conn, v0::Arg { p, q });
         assert!(r == 5, "C10: return value differs");
         assert!(unsafe { SEEN_ARG } == (9, p, q), "C10: newer implementation does not see retained argument fields unchanged and added ones defaulted");
@@ -109,10 +109,66 @@ pub mod q {
     kproof!(arg_new_caller_old_impl, 6, {
         let (e, p, q): (u8, u16, u32) = (kani::any(), kani::any(), kani::any());
         let imp: Box<dyn v0::Svc> = Box::new(Impl0);
-        let conn: AbiConnection<dyn v1::Svc> = connect::<dyn v1::Svc, dyn v0::Svc>(imp, 0, vec![(Some(0), 0), (Some(1), 0)]);
+        let conn: AbiConnection<dyn v1::Svc> = connect::<dyn v1::Svc, dyn v0::Svc>(imp, 0, vec![m(Some(0), 0), m(Some(1), 0)]);
         let r = v1::Svc::put(&conn, v1::Arg { extra: e, p, q });
         assert!(r == 6, "C10: return value differs");
         assert!(unsafe { SEEN_ARG } == (0, p, q), "C10: older implementation does not see the retained argument fields unchanged");
+        std::mem::forget(conn);
+        kani::cover!(true, "reached end");
+    });
+}
+
+/// Minimal interface family for the return path: one method, u8 fields, Default for the added field.
+pub mod r0 {
+    use savefile::prelude::*;
+    use savefile_derive::savefile_abi_exportable;
+    #[derive(Savefile, Debug)]
+    pub struct Ret { pub a: u8, pub b: u8 }
+    #[savefile_abi_exportable(version = 0)]
+    pub trait Get { fn get(&self) -> Ret; }
+}
+pub mod r1 {
+    use savefile::prelude::*;
+    use savefile_derive::savefile_abi_exportable;
+    #[derive(Savefile, Debug)]
+    pub struct Ret {
+        #[savefile_versions = "1.."]
+        pub n: u8,
+        pub a: u8,
+        pub b: u8,
+    }
+    #[savefile_abi_exportable(version = 1)]
+    pub trait Get { fn get(&self) -> Ret; }
+}
+pub static mut RET8: (u8, u8, u8) = (0, 0, 0);
+pub struct Get1;
+impl r1::Get for Get1 {
+    fn get(&self) -> r1::Ret { unsafe { r1::Ret { n: RET8.0, a: RET8.1, b: RET8.2 } } }
+}
+pub struct Get0;
+impl r0::Get for Get0 {
+    fn get(&self) -> r0::Ret { unsafe { r0::Ret { a: RET8.1, b: RET8.2 } } }
+}
+pub mod rq {
+    use super::*;
+    kproof!(ret_old_caller_new_impl, 6, {
+        let (n, a, b): (u8, u8, u8) = (kani::any(), kani::any(), kani::any());
+        unsafe { RET8 = (n, a, b); }
+        let imp: Box<dyn r1::Get> = Box::new(Get1);
+        let conn: AbiConnection<dyn r0::Get> = connect::<dyn r0::Get, dyn r1::Get>(imp, 0, vec![m(Some(0), 0)]);
+        let r = r0::Get::get(&conn);
+        assert!(r.a == a && r.b == b, "C10: retained fields of the return value differ at the older caller (return value not transmitted in the negotiated version's format)");
+        std::mem::forget(conn);
+        kani::cover!(true, "reached end");
+    });
+    kproof!(ret_new_caller_old_impl, 6, {
+        let (a, b): (u8, u8) = (kani::any(), kani::any());
+        unsafe { RET8 = (0, a, b); }
+        let imp: Box<dyn r0::Get> = Box::new(Get0);
+        let conn: AbiConnection<dyn r1::Get> = connect::<dyn r1::Get, dyn r0::Get>(imp, 0, vec![m(Some(0), 0)]);
+        let r = r1::Get::get(&conn);
+        assert!(r.a == a && r.b == b, "C10: retained fields of the return value differ at the newer caller");
+        assert!(r.n == 0, "C10: field unknown to the older implementation is not filled with its default at the caller");
         std::mem::forget(conn);
         kani::cover!(true, "reached end");
     });
